@@ -258,6 +258,20 @@ func run(e *core.Env) {
 		e.Ev("present", uint64(len(entry)), b2u(pr.valid), b2u(got))
 		e.Case(0x01, uint64(len(entry)), uint64(len(pr.what)), b2u(pr.valid), uint64(len(pr.pa.PublicKey)))
 		e.Sample("%s: %s (key %d bytes, easing %d) -> known=%v", entry, pr.what, len(pr.pa.PublicKey), pr.pa.Easing, got)
+		// What V keeps for an accepted identity must be that identity: the address with the key
+		// it is derived from - in the session and in the stored record.
+		if pr.valid && got {
+			if sess := V.State.GetSession(pr.pa.IP); sess != nil && sess.Address() != nil {
+				if a := sess.Address(); a.IP != pr.pa.IP || !bytes.Equal(a.PublicKey, pr.pa.PublicKey) {
+					e.Fail("accepted-identity-kept-under-another-identity/"+entry, "via %s: the session V keeps for %s names %s with a key that is not the presented one", entry, pr.pa.IP, a.IP)
+				}
+			}
+			if r, err := V.Storage.GetRouter(pr.pa.IP); err == nil && r != nil && r.Address != nil {
+				if r.Address.IP != pr.pa.IP || !bytes.Equal(r.Address.PublicKey, pr.pa.PublicKey) {
+					e.Fail("accepted-identity-kept-under-another-identity/"+entry, "via %s: the record V stores under %s carries address %s and another key", entry, pr.pa.IP, r.Address.IP)
+				}
+			}
+		}
 		switch {
 		case pr.valid && !got:
 			e.Fail("valid-identity-rejected/"+entry, "a by-construction valid identity %s (easing %d) left no session at V via %s", pr.pa.IP, pr.pa.Easing, entry)
@@ -398,6 +412,16 @@ func run(e *core.Env) {
 				s1 = make([]byte, 64)
 			}
 			l1 := append(d1, s1...)
+			// In half of the cases a further valid router relayed between the presented identity
+			// and P (two routers V has never seen in one announcement); it is judged as well.
+			var mid *m.Address
+			if tp.Chance(1, 2) {
+				mid = freshValid(used)
+				recM := router.AnnouncePingAttachment{Router: mid.PublicAddress, Delay: 2, ForwardLabel: 21, ReturnLabel: 22, NextAttachment: l1}
+				dM, _ := cbor.Marshal(recM)
+				sM, _ := mid.SignWithContext(dM, ctx)
+				l1 = append(dM, sM...)
+			}
 			rec0 := router.AnnouncePingAttachment{Router: P.ID.PublicAddress, Delay: 4, ForwardLabel: 13, ReturnLabel: 7, NextAttachment: l1}
 			d0, _ := cbor.Marshal(rec0)
 			s0, _ := P.ID.SignWithContext(d0, ctx)
@@ -408,6 +432,9 @@ func run(e *core.Env) {
 			_ = lPV.SendPriority(f)
 			pump(10 * time.Millisecond)
 			judge("hop-record", pr)
+			if mid != nil && pr.valid {
+				judge("hop-record", presented{pa: mid.PublicAddress, priv: mid.PrivateKey, valid: true, what: "valid"})
+			}
 
 		case 3: // (d) stored form
 			pr := next(true, true)
